@@ -173,7 +173,11 @@ Proof.
   intros n Hn.
   assert (Hd : Forall (fun c => is_digit c = true) (dec n)) by (apply dec_f_digits; lia).
   assert (Hne : dec n <> []) by (apply dec_nonempty; lia).
-  unfold py_int. rewrite strip_by_none.
+  unfold py_int.
+  assert (Hm : map to_ascii_c (dec n) = dec n).
+  { clear Hne. induction Hd as [|c r Hc _ IH]; [reflexivity|]. cbn [map]. rewrite IH. f_equal.
+    unfold to_ascii_c. unfold is_digit in Hc. destruct (c <? 127) eqn:E; [reflexivity|lia]. }
+  rewrite Hm. unfold py_int_ascii. rewrite strip_by_none.
   2:{ eapply Forall_impl; [|exact Hd]. intros c Hc. cbv beta in Hc.
       unfold is_digit in Hc. unfold is_space_bytes. lia. }
   destruct (dec n) as [|c r] eqn:D; [congruence|].
@@ -183,6 +187,76 @@ Proof.
   rewrite (digits_fold_ne _ 0 false Hd) by discriminate.
   rewrite <- D. unfold dec. rewrite dec_f_value; [reflexivity|].
   change (Z.of_nat 20) with 20. exact Hn.
+Qed.
+
+(* ---------- str.encode(): UTF-8 ---------- *)
+
+Theorem utf8_app : forall a b, utf8 (a ++ b) = utf8 a ++ utf8 b.
+Proof. intros a b. unfold utf8. apply flat_map_app. Qed.
+
+Lemma utf8_cons c t : utf8 (c :: t) = enc_c c ++ utf8 t.
+Proof. reflexivity. Qed.
+
+Local Ltac Zify.zify_post_hook ::= Z.to_euclidean_division_equations.
+
+(* an ASCII code point is its own encoding *)
+Lemma enc_c_ascii c : c < 128 -> enc_c c = [c].
+Proof. intro H. unfold enc_c. destruct (c <? 128) eqn:E; [reflexivity | lia]. Qed.
+
+(* every byte of the encoding of a non-ASCII code point is >= 128 (whatever the integer) *)
+Lemma enc_c_high c : 128 <= c -> Forall (fun b => 128 <= b) (enc_c c).
+Proof.
+  intro H. unfold enc_c.
+  destruct (c <? 128) eqn:E1; [lia|].
+  destruct (c <? 2048) eqn:E2; [repeat constructor; lia|].
+  destruct (c <? 65536) eqn:E3; repeat constructor; lia.
+Qed.
+
+Lemma enc_c_nonempty c : enc_c c <> [].
+Proof.
+  unfold enc_c. destruct (c <? 128); [discriminate|]. destruct (c <? 2048); [discriminate|].
+  destruct (c <? 65536); discriminate.
+Qed.
+
+Lemma enc_c_bytes c : 0 <= c < 1114112 -> Forall (fun b => 0 <= b < 256) (enc_c c).
+Proof.
+  intro H. unfold enc_c.
+  destruct (c <? 128) eqn:E1; [repeat constructor; lia|].
+  destruct (c <? 2048) eqn:E2; [repeat constructor; lia|].
+  destruct (c <? 65536) eqn:E3; repeat constructor; lia.
+Qed.
+
+Theorem utf8_bytes : forall t, Forall (fun c => 0 <= c < 1114112) t -> Forall (fun b => 0 <= b < 256) (utf8 t).
+Proof.
+  intros t H. induction H as [|c t Hc Ht IH]; [constructor|].
+  rewrite utf8_cons. apply Forall_app. split; [apply enc_c_bytes; exact Hc | exact IH].
+Qed.
+
+(* UTF-8 is a prefix code *)
+Lemma cons_eq_inv {A} (a b : A) x y : a :: x = b :: y -> a = b /\ x = y.
+Proof. intro H. inversion H. split; reflexivity. Qed.
+
+Lemma enc_c_prefix a b x y : 0 <= a < 1114112 -> 0 <= b < 1114112 ->
+  enc_c a ++ x = enc_c b ++ y -> a = b /\ x = y.
+Proof.
+  intros Ha Hb. unfold enc_c.
+  destruct (a <? 128) eqn:A1; [|destruct (a <? 2048) eqn:A2; [|destruct (a <? 65536) eqn:A3]];
+  (destruct (b <? 128) eqn:B1; [|destruct (b <? 2048) eqn:B2; [|destruct (b <? 65536) eqn:B3]]);
+  cbn [app]; intro H;
+  repeat match type of H with _ :: _ = _ :: _ => apply cons_eq_inv in H; let E := fresh "E" in destruct H as [E H] end;
+  first [ exfalso; lia | split; [lia | exact H] ].
+Qed.
+
+Theorem utf8_injective : forall a b, Forall (fun c => 0 <= c < 1114112) a -> Forall (fun c => 0 <= c < 1114112) b -> utf8 a = utf8 b -> a = b.
+Proof.
+  intros a b Ha. revert b. induction Ha as [|c a Hc Ha IH]; intros b Hb H.
+  - destruct b as [|d b]; [reflexivity|]. rewrite utf8_cons in H. change (utf8 []) with (@nil Z) in H.
+    symmetry in H. apply app_eq_nil in H. destruct H as [H _]. exfalso. exact (enc_c_nonempty _ H).
+  - destruct b as [|d b].
+    + rewrite utf8_cons in H. change (utf8 []) with (@nil Z) in H.
+      apply app_eq_nil in H. destruct H as [H _]. exfalso. exact (enc_c_nonempty _ H).
+    + inversion Hb as [|? ? Hd Hb']; subst. rewrite !utf8_cons in H.
+      destruct (enc_c_prefix _ _ _ _ Hc Hd H) as [-> Ht]. f_equal. apply IH; assumption.
 Qed.
 
 Print Assumptions text_eqb_eq.
@@ -196,3 +270,6 @@ Print Assumptions split_join.
 Print Assumptions dec_digits_only.
 Print Assumptions dec_nonempty.
 Print Assumptions py_int_dec.
+Print Assumptions utf8_app.
+Print Assumptions utf8_bytes.
+Print Assumptions utf8_injective.
